@@ -255,6 +255,51 @@ fn exec_one(sc: &Scenario, ctx: &mut Ctx) -> Vec<Violation> {
     Vec::new()
 }
 
+fn oversize_payload(t: &mut Tape, ctx: &mut Ctx) -> Vec<Violation> {
+    use crate::refmodel::codec::RefEnc;
+    use crate::refmodel::lz::Sym;
+    let props = crate::gen::draw_props(t, true);
+    let mut enc = RefEnc::new(props, 1 << 22);
+    let mut r = crate::prng::Xoshiro::new(t.u64());
+    let want = 65_536 + t.range(1, 9000);
+    // incompressible literals until the payload (bytes the decoder needs) reaches `want`
+    while (enc.consumed() as u64) < want {
+        let _ = enc.encode(Sym::Lit(r.next() as u8));
+    }
+    let unpacked = enc.model.out.len() as u64;
+    let payload = enc.finish_segment();
+    let real = payload.len() as u64;
+    let mut out = Vec::new();
+    ctx.stats.hit("arm.hand_framed_chunk_with_a_payload_above_64KiB");
+    for declared in [real - 65_536, real - 65_536 + 1, real - 65_536 - 1] {
+        if declared < 1 || declared > 65_536 {
+            continue;
+        }
+        let mut bytes = Vec::new();
+        let u = unpacked - 1;
+        bytes.push(0xE0 | ((u >> 16) as u8 & 0x1F));
+        bytes.extend_from_slice(&((u & 0xFFFF) as u16).to_be_bytes());
+        bytes.extend_from_slice(&((declared - 1) as u16).to_be_bytes());
+        bytes.push(props.byte());
+        bytes.extend_from_slice(&payload);
+        bytes.push(0);
+        let mut sc = Scenario::new("c17");
+        sc.set_i("ep", [EP_LZMA2, EP_RAW_LZMA2][t.below(2) as usize]);
+        sc.set_b("input", bytes);
+        sc.note = format!(
+            "csize_lowered | one chunk of {} unpacked bytes whose payload is {} bytes, declared compressed size {} (= real - 65536{:+})",
+            unpacked, real, declared, declared as i64 - (real as i64 - 65_536)
+        );
+        ctx.stats.hit("fault.fired.compressed_size_lowered");
+        let rr = exec_one(&sc, ctx);
+        if !rr.is_empty() {
+            out = rr;
+            break;
+        }
+    }
+    out
+}
+
 impl Property for C17 {
     fn id(&self) -> &'static str {
         "C17"
@@ -278,6 +323,12 @@ impl Property for C17 {
         ]
     }
     fn run(&self, t: &mut Tape, ctx: &mut Ctx) -> Vec<Violation> {
+        // 1 run in 80: a hand-framed chunk whose payload is longer than any legal one
+        // (64 KiB + d) and whose size field declares 65536 * k bytes less - what a
+        // decoder sees if it compares sizes in 16 bits
+        if t.below(80) == 0 {
+            return oversize_payload(t, ctx);
+        }
         // 1 run in 16: chunk sizes on the boundaries of the size field
         let boundary = t.below(16) == 0;
         let b = loop {
